@@ -405,6 +405,72 @@ pub fn recursion_programs(out: &mut Vec<(String, Program)>) {
     let _: Option<Arc<FnLit>> = None;
 }
 
+/// late globals: a global function mentions another global only inside one syntactic construct (loop body, loop
+/// condition, branch, case arm / else, nested block, closure, argument, dead code ...); the global is a constant, a
+/// mutable variable or a function; every order of the three top-level definitions. The emitted program must
+/// initialise the global before the function body runs, whatever the construct and the order.
+pub fn late_globals_programs(out: &mut Vec<(String, Program)>) {
+    type Build = fn(Expr) -> Vec<Stmt>;
+    let ifv = |c: Expr, a: Expr, b: Expr| if_e(c, vec![Stmt::Expr(a)], Some(vec![Stmt::Expr(b)]));
+    let _ = &ifv;
+    let constructs: Vec<(&str, Build)> = vec![
+        ("plain", |u| vec![Stmt::Expr(u)]),
+        ("loop-body", |u| vec![def("acc", int(0)), Stmt::Loop(Some(bin(BinOp::Lt, var("acc"), int(1))), vec![op_assign("acc", BinOp::Add, add(u, int(1000)))]), Stmt::Expr(var("acc"))]),
+        ("loop-condition", |u| vec![def("acc", int(0)), Stmt::Loop(Some(bin(BinOp::Lt, var("acc"), u)), vec![op_assign("acc", BinOp::Add, int(1000))]), Stmt::Expr(var("acc"))]),
+        ("then", |u| vec![Stmt::Expr(if_e(Expr::Bool(true), vec![Stmt::Expr(u)], Some(vec![Stmt::Expr(int(0))])))]),
+        ("else", |u| vec![Stmt::Expr(if_e(Expr::Bool(false), vec![Stmt::Expr(int(0))], Some(vec![Stmt::Expr(u)])))]),
+        ("elif-condition", |u| vec![Stmt::Expr(Expr::If(vec![(Expr::Bool(false), vec![Stmt::Expr(int(0))]), (bin(BinOp::Gt, u, int(-5)), vec![Stmt::Expr(int(20))])], Some(vec![Stmt::Expr(int(30))])))]),
+        ("elif-body", |u| vec![Stmt::Expr(Expr::If(vec![(Expr::Bool(false), vec![Stmt::Expr(int(0))]), (Expr::Bool(true), vec![Stmt::Expr(u)])], Some(vec![Stmt::Expr(int(30))])))]),
+        ("if-statement-without-else", |u| vec![def("acc", int(0)), if_s(Expr::Bool(true), vec![assign("acc", u)]), Stmt::Expr(var("acc"))]),
+        ("case-arm", |u| vec![Stmt::Expr(Expr::Case(Box::new(variant_a(int(1))), vec![CaseArm { variant: "A".into(), bind: Some("q".into()), body: vec![Stmt::Expr(add(var("q"), u))] }], Some(vec![Stmt::Expr(int(0))])))]),
+        ("case-else", |u| vec![Stmt::Expr(Expr::Case(Box::new(Expr::Variant("E".into(), "B".into(), None)), vec![CaseArm { variant: "A".into(), bind: Some("q".into()), body: vec![Stmt::Expr(var("q"))] }], Some(vec![Stmt::Expr(u)])))]),
+        ("case-scrutinee", |u| vec![Stmt::Expr(Expr::Case(Box::new(variant_a(u)), vec![CaseArm { variant: "A".into(), bind: Some("q".into()), body: vec![Stmt::Expr(var("q"))] }], Some(vec![Stmt::Expr(int(0))])))]),
+        ("nested-block", |u| vec![def("acc", int(0)), Stmt::Block(vec![Stmt::Block(vec![assign("acc", u)])]), Stmt::Expr(var("acc"))]),
+        ("closure", |u| vec![cdef("inner", lam(vec![], RetAnn::Ty(Ty::Int), vec![Stmt::Expr(u)])), Stmt::Expr(callv("inner", vec![]))]),
+        ("lambda-called-at-once", |u| vec![Stmt::Expr(call(Expr::Paren(Box::new(lam(vec![], RetAnn::Ty(Ty::Int), vec![Stmt::Expr(u)]))), vec![]))]),
+        ("call-argument", |u| vec![Stmt::Expr(callv("idf", vec![u]))]),
+        ("if-value-as-call-argument", |u| vec![Stmt::Expr(add(callv("idf", vec![if_e(Expr::Bool(true), vec![Stmt::Expr(u)], Some(vec![Stmt::Expr(int(0))]))]), int(1)))]),
+        ("case-value-as-call-argument", |u| vec![Stmt::Expr(add(callv("idf", vec![Expr::Case(Box::new(Expr::Variant("E".into(), "B".into(), None)), vec![CaseArm { variant: "A".into(), bind: Some("q".into()), body: vec![Stmt::Expr(var("q"))] }], Some(vec![Stmt::Expr(u)]))]), int(1)))]),
+        ("tuple-element", |u| vec![Stmt::Expr(Expr::Index(Box::new(Expr::Tuple(vec![int(0), u])), 1))]),
+        ("list-element", |u| vec![print_of(Expr::List(vec![u])), Stmt::Expr(int(4))]),
+        ("blob-field", |u| vec![Stmt::Expr(field(Expr::Blob("P".into(), vec![("x".into(), u), ("y".into(), int(0))]), "x"))]),
+        ("variant-payload", |u| vec![print_of(variant_a(u)), Stmt::Expr(int(4))]),
+        ("unary", |u| vec![Stmt::Expr(un(UnOp::Neg, u))]),
+        ("and-operand", |u| vec![Stmt::Expr(if_e(bin(BinOp::And, Expr::Bool(true), bin(BinOp::Gt, u, int(-5))), vec![Stmt::Expr(int(50))], Some(vec![Stmt::Expr(int(60))])))]),
+        ("early-ret", |u| vec![if_s(Expr::Bool(true), vec![Stmt::Ret(Some(u))]), Stmt::Expr(int(0))]),
+        ("dead-code-after-ret", |u| vec![Stmt::Ret(Some(int(3))), print_of(u), Stmt::Expr(int(0))]),
+        ("unused-expression-statement", |u| vec![Stmt::Expr(add(u, int(1))), Stmt::Expr(int(5))]),
+        ("assignment-rhs", |u| vec![def("acc", int(0)), assign("acc", u), Stmt::Expr(var("acc"))]),
+        ("compound-assignment-rhs", |u| vec![def("acc", int(1)), op_assign("acc", BinOp::Add, u), Stmt::Expr(var("acc"))]),
+        ("typed-definition", |u| vec![Stmt::Def { name: "acc".into(), mutable: false, ty: Some(Ty::Int), value: u }, Stmt::Expr(var("acc"))]),
+    ];
+    for (cname, build) in &constructs {
+        for gkind in 0..4 {
+            // 0 constant, 1 mutable, 2 function, 3 mutable assigned (not read) inside the construct
+            let (gtop, usee): (Top, Expr) = match gkind {
+                0 => (Top::Def { name: "late".into(), mutable: false, ty: None, value: int(60) }, var("late")),
+                1 | 3 => (Top::Def { name: "late".into(), mutable: true, ty: None, value: int(60) }, var("late")),
+                _ => (top_fn("late", vec![], RetAnn::Ty(Ty::Int), vec![Stmt::Expr(int(60))]), callv("late", vec![])),
+            };
+            let mut body = build(usee);
+            if gkind == 3 {
+                // write before the construct reads: the function assigns the late global first
+                body.insert(0, assign("late", int(61)));
+            }
+            let user = top_fn("user", vec![], RetAnn::Ty(Ty::Int), body);
+            let startf = start_fn(vec![print_of(callv("user", vec![])), print_of(add(callv("user", vec![]), int(1)))]);
+            let items = [user, gtop, startf];
+            for (pi, perm) in [[0usize, 1, 2], [0, 2, 1], [1, 0, 2], [1, 2, 0], [2, 0, 1], [2, 1, 0]].into_iter().enumerate() {
+                let mut tops = vec![ext_print(), blob_p(), enum_e(), top_fn("idf", vec![("q", Some(Ty::Int))], RetAnn::Ty(Ty::Int), vec![Stmt::Expr(var("q"))])];
+                for k in perm {
+                    tops.push(items[k].clone());
+                }
+                out.push((format!("late-globals:{}:g{}:o{}", cname, gkind, pi), Program { tops }));
+            }
+        }
+    }
+}
+
 pub fn all_programs(thorough: bool) -> Vec<(String, Program)> {
     all_programs_len(if thorough { 4 } else { 3 })
 }
@@ -446,5 +512,6 @@ pub fn all_programs_len(max_len: usize) -> Vec<(String, Program)> {
         f.programs(&mut out);
     }
     recursion_programs(&mut out);
+    late_globals_programs(&mut out);
     out
 }
